@@ -103,6 +103,16 @@ fn is_ambiguous(s: &str) -> bool {
     if is_numeric_looking(s) {
         return true;
     }
+    // Whatever the crate's own schema-less reader would take for a number (0X1F, _1, infinity, +nan,
+    // digits wrapped in Unicode blanks: the reader trims before parsing).
+    let loc = crate::Location::UNKNOWN;
+    if crate::parse_scalars::parse_int_signed::<i128>(s, "i128", loc, false).is_ok()
+        || crate::parse_scalars::parse_int_unsigned::<u128>(s, "u128", loc, false).is_ok()
+        || crate::parse_scalars::parse_yaml12_float::<f64>(s, loc, crate::tags::SfTag::None, false)
+            .is_ok()
+    {
+        return true;
+    }
 
     false
 }
